@@ -139,7 +139,12 @@ pub fn classify_error(text: &str) -> String {
 }
 
 fn info_of(w: &World, v: &Value) -> AssetInfo {
-    if let Some(d) = v.get("native") {
+    if let Some(t) = v.get("native_canon_of") {
+        // a bank denom whose bytes are exactly the canonical address bytes of a contract (kind confusion at
+        // the registry-key level); only meaningful in lookups
+        let canon = MockApi::default().addr_canonicalize(&w.resolve(&s(t))).unwrap();
+        AssetInfo::NativeToken { denom: String::from_utf8_lossy(canon.as_slice()).to_string() }
+    } else if let Some(d) = v.get("native") {
         AssetInfo::NativeToken { denom: s(d) }
     } else {
         AssetInfo::Token { contract_addr: w.resolve(&s(&v["token"])) }
@@ -150,6 +155,10 @@ fn asset_of(w: &World, v: &Value) -> Asset {
 }
 fn jinfo(i: &AssetInfo) -> Value {
     match i {
+        AssetInfo::NativeToken { denom } if denom.contains('\u{0}') => {
+            let printable: String = denom.chars().filter(|c| *c != '\u{0}').collect();
+            json!({"native": true, "id": format!("canon:{}", printable)})
+        }
         AssetInfo::NativeToken { denom } => json!({"native": true, "id": denom}),
         AssetInfo::Token { contract_addr } => json!({"native": false, "id": contract_addr}),
     }
